@@ -130,7 +130,7 @@ AOp(v, o, hasUpper, fid) ==
     [] o.op = "truncate" ->
          IF ~Exists(v, o.p) \/ v[o.p].t = "dir" THEN Fail(v, {})
          ELSE IF v[o.p].t # "file" THEN Free(v)
-         ELSE Ok(OnFile(v, o.p, LAMBDA n : [n EXCEPT !.c = Resize(n.c, o.n)]))
+         ELSE Ok(OnFile(v, o.p, LAMBDA n : [n EXCEPT !.c = Resize(n.c, o.len)]))
     [] o.op = "chmod" ->
          IF ~Exists(v, o.p) THEN Fail(v, {})
          ELSE IF v[o.p].t = "sym" THEN Free(v)
